@@ -34,20 +34,22 @@ CLAIMS = {
             "friends are attributes of that very class. The dict / buffering semantics themselves belong to the dependency: assumed, and checked bounded against a plain dict model (dependency "
             "findings F23/F24 recorded; F26: a state point change after a buffered document write loses the buffered content).", "DESIGN 4/C05, 11", TECH + " of the wiring; bounded model-equality contract for the dependency's dict semantics", FS_NOTE),
     "C06": ("other",
-            "Contracts on the real query-evaluation chain (_find_with_index_operator per operator and argument container, _find_expression, _find_result, Project._build_index, "
-            "_root_keys/_add_prefix) discharged for all inputs against a per-job matcher specification; regex and isclose are uninterpreted (wiring proved). Known finding F3 "
+            "Contracts on the real query-evaluation chain (Project._find_job_ids / find_jobs, _SearchIndexer.build_index, _find_with_index_operator per operator and argument container, "
+            "_find_expression, _find_result, Project._build_index, _root_keys/_add_prefix) discharged for all inputs against a per-job matcher specification; regex and isclose are uninterpreted (wiring proved). Known finding F3 "
             "($type bool vs 0/1 conflation) is reported, so the level is 'other' rather than 'proof'; a bounded run-time contract check of find() against a reference evaluator is the "
             "stand-in/replay oracle.",
             "DESIGN 4/C06, 11", TECH + " + bounded contract checking as replay oracle", BASE_TRUST),
     "C07": ("other", "_add_prefix / _root_keys proved per filter entry over z3 strings (a key gets the default sp. prefix iff it names no namespace; every operand of $and/$or/$not is reached), "
             "with counter-models replayed as concrete keys; JobsCursor len / membership / indexing proved to describe the one id list obtained from _find_job_ids with the cursor's own filter; "
             "JobsCursor.groupby proved over a filter-meaning evaluator: exactly the cursor's jobs (having every key when no default is given) are grouped, one key function sorts and groups, "
-            "the label is the job's own value (flat keys; dotted keys are known finding F6). Spelling equivalences over whole queries and command-line token casting are bounded.",
+            "the label is the job's own value (flat keys; dotted keys are known finding F6); the command-line front end (_cast, _parse_single, parse_simple, parse_filter_arg) and the "
+            "cursor / iterator wiring likewise. Spelling equivalences over whole queries are bounded.",
             "DESIGN 4/C07, 11", TECH + " incl. string theory; bounded contract checking for the string front ends", BASE_TRUST),
     "C08": ("other", "Cache validity invariant (every entry hashes to its key) proved as an invariant of every function that writes the in-memory or persistent cache under contract "
             "(_get_statepoint, _read_cache, update_cache, Job.init, move, re-key, statepoint setter); update_cache postcondition: the file lists exactly the workspace ids, 'nothing to do' iff it "
-            "already did; _get_statepoint returns a value hashing to the id whether it came from the cache or the workspace (transparency). _update_in_memory_cache (thread pool) is an assumed "
-            "contract (bounded check): level 'other'.", "DESIGN 4/C08, 11", TECH + ", cache maps as z3 arrays", FS_NOTE),
+            "already did; _get_statepoint returns a value hashing to the id whether it came from the cache or the workspace (transparency); _update_in_memory_cache proved (exactly the workspace ids "
+            "afterwards; pool.map by an arbitrary-element rule on the real closure) on top of _split_and_print_progress (the chunks tile the list for every length and chunk count). "
+            "ThreadPool.map = one call per element is assumed: level 'other'.", "DESIGN 4/C08, 11", TECH + ", cache maps as z3 arrays", FS_NOTE),
     "C09": ("other", "Hash validation on load (_StatePointDict.load: returns only data whose id matches, otherwise JobsCorruptedError naming the job), Job.init(force), Project.check (accumulator "
             "invariant: names exactly the damaged ids, reads the workspace not the cache) and Project.repair (per-job triple, cache first, no exception escapes) discharged. 'Every repairable job "
             "is repaired' over whole workspaces is bounded (damage scenarios).", "DESIGN 4/C09, 11", TECH, FS_NOTE),
@@ -83,12 +85,13 @@ CLAIMS = {
     "C16": ("other", "Export side under contract: _check_directory_structure_validity proved with loop invariants over a token-prefix theory (accepted iff no export path is a proper token prefix of "
             "another, in any order), _check_path_function_unique (refused iff two jobs share a path), _make_path_function (a generated path function is only returned after the one-to-one check), "
             "_export_jobs (checks before the first copy, exactly one copy and one report per job); Project.clone / Job.init carry 'never overwrites an existing job'. Import side: _crawl_directory_data_space (an identified job directory is pruned in place from the walk), "
-            "_analyze_directory_for_import (refused iff two sources map to one job), _copy_to_job_workspace, _with_consistency_check. The zip / tar analysers and the "
-            "archive libraries are outside the subset: round trips are decided by the bounded layer. Four defects found this way were repaired (F17, F18, F19, F25).", "DESIGN 4/C16, 11",
+            "_analyze_directory_for_import (refused iff two sources map to one job), _copy_to_job_workspace, _with_consistency_check. The zip / tar analysers (a directory becomes a job iff identified and not below an identified one), export_jobs, the three exporters and the import front ends are under "
+            "contract as well; the archive libraries themselves are trusted and whole round trips are decided by the bounded layer. Four defects found this way were repaired (F17, F18, F19, F25).", "DESIGN 4/C16, 11",
             TECH + " for the export-side checks; bounded run-time contract checking (stand-in, labelled bounded) for whole round trips", BASE_TRUST),
     "C17": ("other", "_update_view proved with loop invariants over three symbolic work lists: every obsolete path removed, every changed link unlinked and re-created, every new link created, "
             "nothing else touched, and an early 'up to date' exit only when all lists are empty; _analyze_view (obsolete = every non-empty dead branch but the root, deepest first; "
-            "new / to_update by set algebra), _find_all_links (leaf among sub-directories or files) and _make_link likewise. The recursive tree helpers and the whole-view statements (one link per job, equals a from-scratch "
+            "new / to_update by set algebra), _find_all_links (leaf among sub-directories or files), _make_link and the tree helpers (_color_path, _build_tree over a path-prefix theory; _find_dead_branches by structural "
+            "induction) likewise. create_linked_view and the whole-view statements (one link per job, equals a from-scratch "
             "build, idempotent) are bounded; F18 / F20 / F21 were found and repaired.", "DESIGN 4/C17, 11",
             TECH + " of _update_view; bounded contract checking of the view as a whole", BASE_TRUST),
     "C18": ("other", "diff_jobs proved against set algebra on flattened (key, value) pairs for 0..3 jobs of arbitrary content (each diff = pairs not shared by all; common + diff reconstructs); "
